@@ -702,14 +702,17 @@ theorem C15_disciplined_order_keeps_bookkeeping (sk : Skeleton) (hd : discipline
 
 open ScanPool in
 /-- the facts regenerated from the tree under verification: scanIntoStruct's statement order is disciplined, no
-    other code of package gorm / callbacks touches a value pool, gorm.Scan hands scanIntoStruct a `values` slice it
-    allocated itself for this call, and every pool's `New` builds a fresh holder.  Hoisting the Get out of the per-row
+    other code of package gorm / callbacks touches a value pool, gorm.Scan hands scanIntoStruct the `values` and `fields`
+    tables it made itself for this call, prepareValues (map destinations) allocates its holders per row, and every pool's
+    `New` builds a fresh holder.  Hoisting the Get out of the per-row
     path, deferring or moving the Put, or sharing `values` / the holders breaks THIS obligation. -/
 theorem C15_holder_discipline_current_tree :
     Gen.scanIntoStructFound = true ∧
     disciplined (decodeSkeleton Gen.scanIntoStructOrder) = true ∧
     Gen.scanPoolCallsOutsideFieldLoops = 0 ∧
     Gen.scanIntoStructValuesLocal = true ∧
+    Gen.scanIntoStructFieldsLocal = true ∧
+    Gen.prepareValuesFresh = true ∧
     Gen.scanPoolNewFresh = true := by
   decide
 
